@@ -107,7 +107,7 @@ Lemma rs_long_year_spec y : 1 <= y -> rs_is_long_year y = (iso_weeks_in_year y =
 Proof. intros. rewrite rs_is_long_year_eq_py by lia. apply py_is_long_year_spec. Qed.
 
 (* ordinal_to_ymd with allow_out_of_bounds = true, reduced to the in-year loop of the adjusted year *)
-Lemma rs_ordinal_oob y o : 2 <= y -> -10 <= o <= days_in_year y + 3 ->
+Lemma rs_ordinal_oob y o : 1 <= y -> -10 <= o <= days_in_year y + 3 ->
   rs_ordinal_to_ymd y o true =
     if o <? 1 then rs_ordinal_to_ymd (y - 1) (o + days_in_year (y - 1)) false
     else if o >? days_in_year y then rs_ordinal_to_ymd (y + 1) (o - days_in_year y) false
@@ -129,12 +129,12 @@ Proof.
     + cbv beta iota. reflexivity.
 Qed.
 
-(* the Rust week conversion is right whenever the target day is not the last day of a month *)
-Theorem rs_week_partial y w wd : 2 <= y -> 1 <= w <= iso_weeks_in_year y -> 1 <= wd <= 7 ->
-  (let '(yy, mm, dd) := ord2ymd (fromisocalendar_ord y w wd) in dd <> dim yy mm) ->
+(* full strength (finding rs-ordinal-month-end repaired): the Rust week conversion equals date.fromisocalendar for every
+   ISO year >= 1, every week of that year and every weekday — month ends and year ends included *)
+Theorem rs_week_spec y w wd : 1 <= y -> 1 <= w <= iso_weeks_in_year y -> 1 <= wd <= 7 ->
   rs_iso_to_ymd y w wd = Some (ord2ymd (fromisocalendar_ord y w wd)).
 Proof.
-  intros Hy Hw Hwd NE. unfold rs_iso_to_ymd.
+  intros Hy Hw Hwd. unfold rs_iso_to_ymd.
   rewrite rs_long_year_spec by lia. pose proof (iso_weeks_52_53 y) as W.
   replace ((w >? 53) || (w >? 52) && negb (iso_weeks_in_year y =? 53)) with false by lia.
   replace (wd >? 7) with false by lia.
@@ -147,14 +147,29 @@ Proof.
   pose proof (diy_cases y) as D0. pose proof (diy_cases (y - 1)) as D1. pose proof (diy_cases (y + 1)) as D2.
   assert (G : forall y' n, 0 <= y' -> 1 <= n <= days_in_year y' -> ymd2ord y' 1 1 + n - 1 = fromisocalendar_ord y w wd ->
               rs_ordinal_to_ymd y' n false = Some (ord2ymd (fromisocalendar_ord y w wd))).
-  { intros y' n Hy' Hn Eq. rewrite <- Eq. apply rs_ordinal_partial; try assumption.
-    rewrite <- Eq in NE. rewrite ord2ymd_yday in NE by assumption.
-    unfold is_month_end_yday. unfold md_of_yday in NE. destruct (md_of_yday_l (is_leap y') n) as [m d]. cbn [fst snd] in NE.
-    unfold dim in NE. lia. }
+  { intros y' n Hy' Hn Eq. rewrite <- Eq. apply rs_ordinal_spec; assumption. }
   destruct (o <? 1) eqn:C1; [|destruct (o >? days_in_year y) eqn:C2].
   - apply G; try lia. rewrite ymd2ord_jan1_prev. lia.
   - apply G; try lia. rewrite ymd2ord_jan1_next. lia.
   - apply G; lia.
+Qed.
+
+Example rs_week_spec_hyps_satisfiable : 1 <= 2021 /\ 1 <= 13 <= iso_weeks_in_year 2021 /\ 1 <= 3 <= 7.
+Proof. vm_compute. repeat split; discriminate. Qed.
+
+(* the former witnesses of the finding: week dates whose day is the last day of a month / of the year *)
+Theorem rs_week_month_end_witnesses :
+  rs_iso_to_ymd 2021 13 3 = Some (2021, 3, 31) /\ rs_iso_to_ymd 2020 53 4 = Some (2020, 12, 31) /\
+  rs_iso_to_ymd 2024 9 4 = Some (2024, 2, 29) /\ rs_iso_to_ymd 2019 1 1 = Some (2018, 12, 31).
+Proof. vm_compute. repeat split; reflexivity. Qed.
+
+(* both backends agree on every week date of the years the pure-Python path supports (strptime's four-digit %Y) *)
+Theorem rs_week_eq_py y w wd : 1001 <= y <= 9998 -> 1 <= w <= iso_weeks_in_year y -> 1 <= wd <= 7 ->
+  exists r, py_get_week y w (Some wd) = Ok r /\ rs_iso_to_ymd y w wd = Some r.
+Proof.
+  intros Hy Hw Hwd. exists (ord2ymd (fromisocalendar_ord y w wd)). split.
+  - apply py_week_spec; assumption.
+  - apply rs_week_spec; try assumption; lia.
 Qed.
 
 Theorem rs_week_reject y w wd : 1 <= y -> (w > iso_weeks_in_year y /\ 1 <= w) \/ wd > 7 -> rs_iso_to_ymd y w wd = None.
@@ -163,7 +178,3 @@ Proof.
   destruct ((w >? 53) || (w >? 52) && negb (iso_weeks_in_year y =? 53)) eqn:A; [reflexivity|].
   destruct (wd >? 7) eqn:B; [reflexivity|]. lia.
 Qed.
-
-Theorem rs_week_refuted : exists y w wd, 2 <= y /\ 1 <= w <= iso_weeks_in_year y /\ 1 <= wd <= 7 /\
-  rs_iso_to_ymd y w wd <> Some (ord2ymd (fromisocalendar_ord y w wd)).
-Proof. exists 2021, 13, 3. split; [lia|]. split; [vm_compute; split; discriminate|]. split; [lia|]. vm_compute. discriminate. Qed.
